@@ -24,5 +24,7 @@ class TrashDirReader:
     def list_trashinfo(self, path):
         info_dir = os.path.join(path, 'info')
         for entry in self.dir_reader.entries_if_dir_exists(info_dir):
-            if entry.endswith('.trashinfo'):
+            # a file named just '.trashinfo' describes no payload: its backup
+            # copy would be the 'files' directory itself
+            if entry.endswith('.trashinfo') and entry != '.trashinfo':
                 yield os.path.join(info_dir, entry)
